@@ -91,3 +91,41 @@ def xml_type_elements():
                     pass
         out[name] = (exs, body)
     return out
+
+
+_HEXRUN = r"(?:[0-9A-Fa-f]{2}[ \t\r\n]+)+[0-9A-Fa-f]{2}"
+
+
+def hex_examples(body):
+    """worked examples of a section, however they are set: an inline code span or a fenced block that holds nothing but
+    hex byte pairs (two bytes at least).  -> [(lead, hex text, bytes)] in document order; `lead` is the prose in front of
+    the bytes — back to the previous example of the same paragraph, or to the start of the paragraph (for a fenced block:
+    of the paragraph above it).  Which words the prose uses (`looks like this`, `is encoded as`, …) is not looked at."""
+    spans = []
+    for m in re.finditer(r"```[^\n]*\n(.*?)```", body, re.S):
+        if re.fullmatch(r"\s*" + _HEXRUN + r"\s*", m.group(1)):
+            spans.append((m.start(), m.end(), m.group(1)))
+    fenced = [(a, b) for a, b, _t in spans]
+    for m in re.finditer(r"`(" + _HEXRUN + r")`", body):
+        if any(a <= m.start() < b for a, b in fenced):
+            continue
+        spans.append((m.start(), m.end(), m.group(1)))
+    spans.sort()
+    out = []
+    prev_end = 0
+    for a, b, txt in spans:
+        before = body[:a].rstrip()
+        para = before.rfind("\n\n")
+        start = max(prev_end, para + 2 if para >= 0 else 0)
+        if start > len(before):
+            start = prev_end
+        lead = before[start:]
+        hx = " ".join(txt.split())
+        out.append((lead, hx, bytes.fromhex(hx.replace(" ", ""))))
+        prev_end = b
+    return out
+
+
+def code_spans(text):
+    """inline code spans of a piece of prose, in order"""
+    return re.findall(r"`([^`\n]+)`", text)
